@@ -1,0 +1,143 @@
+//go:build verif
+
+package packet
+
+// C08 ring 1: payload-level decoders of package packet are total: for arbitrary
+// bytes they return (no panic) and every loop / recursion has a decreasing
+// measure. C17: offsets and limits of DNS name decoding.
+
+// ---------- decodeName ----------
+
+func verif_inv_decodeName_1(data []byte, index int, offset int, buffer *[]byte, start int) bool {
+	return buffer != nil && 0 <= offset && offset <= index && index < len(data) && 0 <= start && start <= len(*buffer) && vKeptOrNew(*buffer) && index-offset <= 255
+}
+
+// the loop writes the scratch buffer up to its capacity (append in place) or fresh memory (append growing)
+func verif_frame_decodeName_1(buffer *[]byte) []byte    { return (*buffer)[:cap(*buffer)] }
+func verif_dec_decodeName_1(data []byte, index int) int { return len(data) - index }
+
+// decodeName: total for arbitrary data; on success the returned offset lies
+// after the name and inside the message (or one past its last byte), names
+// longer than 255 bytes, reserved label types and pointers beyond the message are
+// rejected, and the recursion depth is bounded by 255 pointer hops.
+//
+//verif:props C08 C17
+func verif_contract_decodeName(data []byte, offset int, buffer *[]byte, level int) ([]byte, int, error) {
+	vRequires(buffer != nil && level >= 1)
+	// writes: the scratch slice header *buffer and the scratch bytes up to its capacity
+	// (append in place), or freshly allocated memory (append growing)
+	vModifiesObj(buffer)
+	vModifiesBytes((*buffer)[:cap(*buffer)])
+	oldLen := len(*buffer)
+	name, next, err := decodeName(data, offset, buffer, level)
+	vEnsures(len(*buffer) >= oldLen) // the scratch buffer only grows
+	if err == nil {
+		vEnsures(0 <= offset && offset < next)
+		vEnsures(next <= len(data))
+		vEnsures(next-offset <= 257)
+		vEnsures(level <= 255)
+	} else {
+		vEnsures(name == nil)
+	}
+	vEnsures(buffer != nil)
+	return name, next, err
+}
+
+// termination of the recursion: every recursive call increases level, which is bounded
+//
+//verif:props C08
+func verif_lemma_decodeName_measure(level int) {
+	vRequires(level >= 1 && level <= 255)
+	vAssert(256-(level+1) < 256-level && 256-(level+1) >= 0)
+}
+
+//verif:props C08 C17
+func verif_contract_DecodeQuestion(p DNS, index int, buffer []byte) (Question, int, error) {
+	vRequires(len(p) >= 12)
+	vCanary()
+	vModifiesHeap()
+	vModifiesBytes(buffer[:cap(buffer)]) // scratch space for the decoded name
+	q, off, err := DecodeQuestion(p, index, buffer)
+	if err == nil {
+		vEnsures(index < off && off <= len(p))
+		vEnsures(q.Type == spec_be16(p, off-4) && q.Class == spec_be16(p, off-2))
+	}
+	return q, off, err
+}
+
+func verif_inv_DNSEntry_decodeRRs_1(e *DNSEntry, i int, count int, offset int, p DNS) bool {
+	return e != nil && 0 <= i && (i == 0 || offset <= len(p))
+}
+func verif_dec_DNSEntry_decodeRRs_1(i int, count int) int   { return count - i }
+func verif_frame_DNSEntry_decodeRRs_1(buffer []byte) []byte { return buffer[:cap(buffer)] }
+
+//verif:props C08 C17
+func verif_contract_DNSEntry_decodeRRs(e *DNSEntry, count int, p DNS, offset int, buffer []byte) (int, bool, error) {
+	vRequires(e != nil && e.IP4Records != nil && e.IP6Records != nil && e.CNameRecords != nil && e.PTRRecords != nil)
+	vCanary()
+	vModifiesHeap()
+	vModifiesBytes(buffer[:cap(buffer)]) // scratch space for the decoded names
+	n, updated, err := e.decodeRRs(count, p, offset, buffer)
+	if err == nil && count > 0 {
+		vEnsures(n <= len(p))
+	}
+	return n, updated, err
+}
+
+//verif:props C08
+func verif_lemma_DecodeAnswers_total(e *DNSEntry, p DNS, offset int, buffer []byte) {
+	vRequires(e != nil && e.IP4Records != nil && e.IP6Records != nil && e.CNameRecords != nil && e.PTRRecords != nil)
+	if p.IsValid() != nil {
+		return
+	}
+	_, _, _ = e.DecodeAnswers(p, offset, buffer)
+}
+
+// ---------- arbitrary bytes into the option / TLV parsers ----------
+
+//verif:props C08
+func verif_lemma_ndp_options_total(b []byte) {
+	vCanary()
+	_, _ = newParseOptions(b)
+}
+
+//verif:props C08
+func verif_lemma_hopbyhop_total(b []byte) {
+	h := HopByHopExtensionHeader(b)
+	if !h.IsValid() {
+		return
+	}
+	vCanary()
+	_ = h.NextHeader()
+	_ = h.Data()
+	_, _ = h.ParseHopByHopExtensions()
+}
+
+//verif:props C08
+func verif_lemma_dhcp4_options_total(b []byte) {
+	d := DHCP4(b)
+	if d.IsValid() != nil {
+		return
+	}
+	vCanary()
+	_ = d.ParseOptions()
+	_ = d.SName()
+	_ = d.File()
+}
+
+func verif_inv_LLDP_GetPDU_1(p LLDP, pos int) bool  { return 0 <= pos && pos <= len(p) }
+func verif_dec_LLDP_GetPDU_1(p LLDP, pos int) int   { return len(p) - pos }
+func verif_inv_LLDP_FastLog_1(p LLDP, pos int) bool { return 0 <= pos && pos <= len(p) }
+func verif_dec_LLDP_FastLog_1(p LLDP, pos int) int  { return len(p) - pos }
+
+//verif:props C08
+func verif_lemma_lldp_total(b []byte, pduType int) {
+	l := LLDP(b)
+	if l.IsValid() != nil {
+		return
+	}
+	vCanary()
+	_ = l.ChassisID()
+	_ = l.PortID()
+	_ = l.GetPDU(pduType)
+}
